@@ -149,7 +149,8 @@ def c17_single_record_full (cfg : Panel.Cfg) : Prop :=
 /-- OBLIGATION: the tree has the repair — `GetSession` refuses on a retired record, `TerminateActiveUser` retires
 the record under `sessionsM` before it closes the sessions, closes before it deletes, and deletes only its own entry -/
 theorem gen_orphan_repair :
-    Panel.genCfg = Panel.repairedCfg ∧ Gen.Panel.terminateClosesBeforeDelete = true := by decide
+    Panel.genCfg = Panel.orphanRepaired Gen.Panel.refusedCleanupClosesOwnId Gen.Panel.refusedCleanupRetires ∧
+    Gen.Panel.terminateClosesBeforeDelete = true := by decide
 
 /-- the atomic steps of the model are the critical sections of the code; the admission is two such steps -/
 theorem gen_structure :
@@ -158,7 +159,8 @@ theorem gen_structure :
     Gen.Panel.getBypassUserUnderLock = true ∧ Gen.Panel.admissionTwoSteps = true := by decide
 
 /-- **C17 (2)**: for every schedule of admissions (user lookup and session creation as two steps), session
-closures, terminations (close-all then delete, from whichever caller) and admin changes: each live session is in
+closures, clean-ups of refused connections (whichever of the two the tree has: C15), terminations (close-all then
+delete, from whichever caller) and admin changes: each live session is in
 the record `activeUsers` holds for its uid; hence one record per uid, and no session in a terminated record.
 Holds in EVERY reachable state, quiescent or not. -/
 theorem c17_single_record : c17_single_record_full Panel.genCfg := by
@@ -168,11 +170,17 @@ theorem c17_single_record : c17_single_record_full Panel.genCfg := by
 
 def uinfo : Panel.Info := ⟨2, 1000000, 1000000, 5000, 5000, 100⟩
 
-/-- non-vacuity: a run with two users, joins, a refused third session, a last-session closure and a re-admission -/
+/-- the invariant does not depend on which clean-up a refused connection performs (`CloseSession(own id)` or the
+repaired "terminate if empty") -/
+theorem c17_single_record_either (names retires : Bool) : c17_single_record_full (Panel.orphanRepaired names retires) :=
+  fun evs => Panel.inv_single (Panel.inv_run evs Panel.inv_init)
+
+/-- non-vacuity: a run with two users, joins, a refused third session and its clean-up, a last-session closure and a
+re-admission -/
 example :
     let evs : List Panel.Ev := [.put 7 uinfo, .put 8 uinfo, .getUser 7 false 10, .getUser 8 false 10,
       .getSession 0 1 100 10, .getSession 0 1 101 10, .getSession 0 2 102 10, .getSession 0 3 103 10,
-      .getSession 1 1 104 10, .closeLocked 1 1, .retire 1, .closeAll 1, .deleteRec 1, .getUser 8 false 11, .getSession 2 5 105 11]
+      .refusedCleanup 0 3, .getSession 1 1 104 10, .closeLocked 1 1, .retire 1, .closeAll 1, .deleteRec 1, .getUser 8 false 11, .getSession 2 5 105 11]
     let s := Panel.run Panel.repairedCfg Panel.init evs
     s.active = [(8, 2), (7, 0)] ∧ (s.recs.map (·.sessions.length)) = [2, 0, 1] ∧ Panel.singleRecordB s = true := by
   decide
@@ -201,7 +209,7 @@ theorem c17_orphan_schedule_repaired :
 
 /-- why the guarded delete is part of the repair: two terminations of record 0 overlap (last-session closure and
 a TERMINATE verdict), the user reconnects in between, the second delete removes the NEW record's entry -/
-theorem c17_unguarded_delete_witness : ¬ c17_single_record_full ⟨true, true, false⟩ := by
+theorem c17_unguarded_delete_witness : ¬ c17_single_record_full ⟨true, true, false, false, true⟩ := by
   intro h
   have := Panel.single_of_B (h [.put 7 uinfo, .getUser 7 false 10, .getSession 0 1 100 10, .closeLocked 0 1,
     .retire 0, .retire 0, .closeAll 0, .closeAll 0, .deleteRec 0, .getUser 7 false 10, .getSession 1 1 300 10, .deleteRec 0])
